@@ -1266,6 +1266,13 @@ class Interp:
             vals = args[0].items if len(args) == 1 and isinstance(args[0], (Lst, Tup)) else args
             if all(isinstance(x, (int, float)) and not isinstance(x, bool) for x in vals) and vals:
                 return min(vals) if name == "min" else max(vals)
+            if len(vals) == 2 and all(self.to_term(x) is not None for x in vals):
+                a, b = vals
+                le = self.sign_query(("sub", self.to_term(a), self.to_term(b)), frozenset(["neg", "zero"]),
+                                     f"{A.term_str(self.to_term(a))}<={A.term_str(self.to_term(b))}")
+                if name == "min":
+                    return a if le else b
+                return b if le else a
         if name == "range":
             if all(isinstance(x, int) for x in args):
                 return Lst(list(range(*args)))
@@ -1805,6 +1812,8 @@ class Interp:
             if not ok or env.self_cls is None:
                 raise Unsupported(f"super() without self at {self.site}")
             return SuperV(env.self_cls, selfv)
+        if isinstance(e.func, ast.Name) and e.func.id == "cast" and len(e.args) == 2:
+            return self.eval(e.args[1], env)  # typing.cast: the type argument is never evaluated
         f = self.eval(e.func, env)
         args = []
         for a in e.args:
